@@ -4,7 +4,7 @@
 From Coq Require Import ZArith List Bool.
 From Galene Require Import Lib.Word Generated.Consts Model.PacketMap Model.PacketMapL1 Model.Cache Model.Forward.
 From Galene Require Import Proofs.PacketMapGhost Proofs.PacketMapView Proofs.PacketMapSpec.
-From Galene Require Import Proofs.CacheSound Proofs.ForwardProps.
+From Galene Require Import Proofs.CacheSound Proofs.ForwardProps Proofs.ReverseStable.
 Import ListNotations.
 Open Scope Z_scope.
 
@@ -109,3 +109,15 @@ Theorem C03_window_exact : forall ops O, Forall wf_op16 ops ->
   end.
 Proof. exact reverse_window_reachable. Qed.
 Print Assumptions C03_window_exact.
+
+(* A retransmission goes through Map again (gotNACK -> Write).  Whatever
+   Reverse answers with is a packet that Map treats as a late copy: the map is
+   exactly as before, so answering a NACK - for any number, in any state -
+   never restarts the numbering of the packets that follow (C01) and never
+   forgets what was withheld.  (Finding F31, repaired: a NACK for a packet
+   more than 8192 numbers old used to reset the map.) *)
+Theorem C03_retransmission_keeps_map : forall m o s p pid,
+  is16 (m_next m) -> is16 s ->
+  pm_reverse m o = (true, s, p) -> snd (pm_map m s pid) = m.
+Proof. exact retransmission_keeps_map. Qed.
+Print Assumptions C03_retransmission_keeps_map.
